@@ -295,7 +295,8 @@ def chart_specs(draw, max_segments: int = 8, max_tracks: int = 2, max_notes: int
                 max_events: int = 5, max_ts: int = 3, max_anchors: int = 2, tempo_values=bpm_values,
                 headers=None, min_tracks: int = 0, min_notes: int = 0, limit_s: int = TIME_LIMIT_S,
                 max_tick_cap: int | None = None, anchor_max: int = 10 ** 11, res=None,
-                with_song: bool = True, with_layout: bool = True, allow_long_tracks: bool = True):
+                with_song: bool = True, with_layout: bool = True, allow_long_tracks: bool = True,
+                long_one_in: int = 10):
     """A well-formed chart spec plus the generation-side facts a check may want:
     returns {"spec": spec, "res": r, "tempo": [...], "max_tick": M, "tracks_model": {...}}."""
     tmap = draw(tempo_maps(max_segments=max_segments, values=tempo_values,
@@ -328,7 +329,7 @@ def chart_specs(draw, max_segments: int = 8, max_tracks: int = 2, max_notes: int
         if ntr else []
     tracks = {}
     tracks_model = {}
-    amplify = draw(st.integers(0, 9)) == 0 and allow_long_tracks
+    amplify = allow_long_tracks and draw(st.integers(0, max(0, long_one_in - 1))) == 0
     for h in chosen:
         tsp = draw(track_specs(tm, max_tick, max_notes=max_notes, min_notes=min_notes))
         if amplify and tsp["notes"]:
@@ -375,3 +376,37 @@ def chart_specs(draw, max_segments: int = 8, max_tracks: int = 2, max_notes: int
                                                    max_size=3))]]
     return {"spec": spec, "res": tmap["res"], "tempo": tmap["tempo"], "max_tick": max_tick,
             "tracks_model": tracks_model}
+
+
+def unsorted_variant(spec, draw):
+    """The same chart with its tick groups permuted, over a single tempo (the fastest of the original map, so
+    every tick is reached no later than before).  Such a chart parses (the lookup hints cannot object over a
+    single tempo) to tracks whose events are not in tick order; forced flags are dropped because a forced first
+    note is a documented ValueError."""
+    spec = dict(spec)
+    fastest = max(it[2] for it in spec["sync"] if it[1] == "B")
+    spec["sync"] = [[0, "TS", 4], [0, "B", fastest]]
+    tracks = {}
+    for h, items in spec["tracks"].items():
+        groups: dict = {}
+        for it in items:
+            if it[1] == "N" and it[2] == 5:
+                continue
+            groups.setdefault(it[0], []).append(it)
+        order = list(groups)
+        if len(order) > 1:
+            if len(order) > 60:
+                # long tracks: a handful of transpositions instead of a full permutation (cheap to draw)
+                for _ in range(draw(st.integers(1, 6))):
+                    i, j = draw(st.integers(0, len(order) - 1)), draw(st.integers(0, len(order) - 1))
+                    order[i], order[j] = order[j], order[i]
+            else:
+                order = list(draw(st.permutations(order)))
+        tracks[h] = [it for t in order for it in groups[t]]
+    spec["tracks"] = tracks
+    ev = list(spec["events"])
+    if len(ev) > 1:
+        ev = list(draw(st.permutations(ev)))
+    spec["events"] = ev
+    return spec
+
